@@ -26,9 +26,11 @@ Inductive lop :=
 | LTBorrow (short : bool) (* TimeoutLimit.Borrow(timeout) *)
 | LTReturn                (* TimeoutLimit.Return *)
 | LReq (panics : bool)    (* one HTTP request through MaxConnsHandler; the handler body returns or panics *)
-| LCancel (k : nat).      (* the context of thread k's (current or last) request is cancelled - the client
-                             went away; the handler, if still inside, stays inside.  A holder's permit is
-                             given back at its return only: a context event changes no capacity *)
+| LCancel (k : nat).      (* an environment event aimed at thread k's (current or last) request: its context
+                             is cancelled - the client went away; the handler, if still inside, stays
+                             inside - or the connection its handler took over (http.Hijacker) is closed,
+                             once more.  A holder's permit is given back at its return only: neither
+                             event changes any capacity *)
 
 Inductive lpc :=
 | LIdle       (* between calls *)
